@@ -1,5 +1,6 @@
 import CobaldVerif.Drive.C06
 import CobaldVerif.Drive.C07
+import CobaldVerif.Drive.C08
 
 namespace Cobald.Drive
 open Lean
@@ -8,6 +9,7 @@ def dispatch (prop : String) (j : Json) : Except String Json :=
   match prop with
   | "C06" => C06.handle j
   | "C07" => C07.handle j
+  | "C08" => C08.handle j
   | p => throw s!"unknown property {p}"
 
 /-- one request line `<prop> <json>` → one canonical JSON line -/
